@@ -325,6 +325,24 @@ func ruleSApply(c *Ctx) {
 	ok1 := hasString(st, "&"+in+".PreviousTxScript := p0.prevOutput.LockingScript")
 	ok2 := hasString(st, "&"+in+".PreviousTxSatoshis := p0.prevOutput.Satoshis")
 	ok3 := hasString(st, "&p0.tx := p1.tx") && hasString(st, "&p0.inputIdx := p1.inputIdx") && hasString(st, "&p0.prevOutput := p1.previousTxOut")
+	// the recording does not depend on what the input already carries
+	for _, b := range fn.Blocks {
+		for _, ins := range b.Instrs {
+			if s, ok := ins.(*ssa.Store); ok {
+				if fa, ok := s.Addr.(*ssa.FieldAddr); ok {
+					fname := fieldName(fa.X.Type(), fa.Field)
+					if fname == "PreviousTxSatoshis" || fname == "PreviousTxScript" {
+						for _, dc := range dominatingConds(b) {
+							t := atomName(env.Term(dc.cond))
+							if strings.Contains(t, ".PreviousTxSatoshis") || strings.Contains(t, ".PreviousTxScript") {
+								c.Fail("S-apply", "thread.apply/unconditional/"+fname, s.Pos(), "the spent output's "+fname+" is recorded only under a condition on what the input already carries ("+shorten(t, 100)+"): a stale value on the transaction object is hashed instead of the real previous output")
+							}
+						}
+					}
+				}
+			}
+		}
+	}
 	c.Check(ok1 && ok2 && ok3, "S-apply", "thread.apply/spent-output", fn.Pos(), "the checked input receives the spent output's script and value from the options given to Execute", "thread.apply no longer records the spent output's locking script and value on the checked input")
 	// no other store to PreviousTxScript / PreviousTxSatoshis in the interpreter package
 	n := 0
